@@ -242,4 +242,45 @@ theorem compound_refusals {ω} (ws : List (LLWcs ω)) (mapping : List Nat) (hm :
   · intro h; simp [compound, effectiveMapping, hm, h]
   · intro v h; simp [compoundW2P, effectiveMapping, hm, h]
 
+/-! ## already-wrapped inner WCS
+
+`resampled_forward`, `reordered_perm` and `compound_forward` hold for *any* inner WCS, wrapped or
+not.  For the resampling wrapper the composition has a closed form, which is also the rule by
+which two nested wrappers may be folded into one (and by which `unwrap_wcs_to_fitswcs`, C15, folds
+them into a FITS header): factors multiply, and the outer offset is scaled by the *inner* factor. -/
+
+theorem mulAdd_mulAdd (p f2 o2 f1 o1 : List Rat) :
+    mulAdd (mulAdd p f2 o2) f1 o1
+      = mulAdd p (List.zipWith (· * ·) f2 f1) (List.zipWith (· + ·) (List.zipWith (· * ·) o2 f1) o1) := by
+  induction p generalizing f2 o2 f1 o1 with
+  | nil => cases f2 <;> cases o2 <;> cases f1 <;> cases o1 <;> simp [mulAdd]
+  | cons x xs ih =>
+    cases f2 with
+    | nil => simp [mulAdd]
+    | cons a2 f2 =>
+      cases o2 with
+      | nil => cases f1 <;> simp [mulAdd]
+      | cons c2 o2 =>
+        cases f1 with
+        | nil => simp [mulAdd]
+        | cons a1 f1 =>
+          cases o1 with
+          | nil => simp [mulAdd]
+          | cons c1 o1 =>
+            simp only [mulAdd, List.zipWith_cons_cons, ih]
+            congr 1
+            grind
+
+/-- **Resampling a resampled WCS**: the outer wrapper over the inner one maps pixel `p` to the
+innermost WCS's value at `p·(f₂f₁) + (o₂f₁ + o₁)`. -/
+theorem resampled_nested {ω} (w w1 w2 : LLWcs ω) (f1 o1 f2 o2 : List Rat)
+    (h1 : resampled w (.list f1) (.list o1) = .ok w1) (h2 : resampled w1 (.list f2) (.list o2) = .ok w2) (p : List Rat) :
+    w2.p2w p = w.p2w (mulAdd p (List.zipWith (· * ·) f2 f1)
+                               (List.zipWith (· + ·) (List.zipWith (· * ·) o2 f1) o1)) := by
+  have a1 := (resampled_forward w w1 _ _ h1).1
+  have a2 := (resampled_forward w1 w2 _ _ h2).1
+  rw [a2, a1]
+  simp only [PerAxis.expand]
+  rw [mulAdd_mulAdd]
+
 end Ndcube.C14
